@@ -25,7 +25,7 @@ from .. import kinds
 from .. import seqterm as S
 from ..flow import dominating_tests, effective_body
 from ..model import model_of
-from ..siblings import get_siblings
+from ..siblings import get_siblings, undecided
 from ..source import AnalysisError, calls_in, dotted, enclosing_function, norm, parent, qual_of
 
 EXPR_FIELDS = {
@@ -223,6 +223,8 @@ def run(chk):
         ("Union", ("keep", S.COLS, ("setof", S.IN)), "after a union only the visible left columns are referable"),
     ):
         t = sib.terms("cache", sym.cls(vname))
+        if undecided(chk, "R5", t, f"{vname} in cache"):
+            continue
         cols = S.normalise(t["COLS"]["raw"], vname)
         sel = t["SEL"]["nf"]
         good = cols == (want if want is not None else sel)
@@ -230,13 +232,16 @@ def run(chk):
                f"{why}, but Cache.update keeps cols = {S.show(cols)}: a reference to a dropped column would resolve to stale data instead of ColumnNotFoundError")  # fmt: skip
     for vname in ("Select", "Rename", "Filter", "Arrange", "SliceHead", "GroupBy", "Ungroup"):
         t = sib.terms("cache", sym.cls(vname))
+        if undecided(chk, "R5", t, f"{vname} in cache"):
+            continue
         cols = S.normalise(t["COLS"]["raw"], vname)
         chk.ob("R5", ccfg.module, ccfg.func, f"cache {vname}: cols unchanged", cols == S.COLS,
                f"`{vname}` changes the set of referable columns ({S.show(cols)}): hidden columns must stay usable through their references")  # fmt: skip
     t = sib.terms("cache", sym.cls("Mutate"))
-    chk.ob("R5", ccfg.module, ccfg.func, "cache Mutate: cols = old | new (overwritten columns stay referable)", S.normalise(t["COLS"]["raw"], "Mutate") == ("merge", S.COLS, S.FLD("uuids")),
-           "mutate drops columns from scope: a reference to an overwritten column would stop working")  # fmt: skip
-    chk.floor("R5", "scope obligations", 10, 10)
+    if not undecided(chk, "R5", t, "Mutate in cache"):
+        chk.ob("R5", ccfg.module, ccfg.func, "cache Mutate: cols = old | new (overwritten columns stay referable)", S.normalise(t["COLS"]["raw"], "Mutate") == ("merge", S.COLS, S.FLD("uuids")),
+               "mutate drops columns from scope: a reference to an overwritten column would stop working")  # fmt: skip
+    chk.floor("R5", "scope obligations", 10 + len([u for u in chk.undecided if u.startswith("R5")]), 10)
     # scope test of the ingress is on `cols` (all columns in scope), not on the visible ones
     chk.ob("R5", vb, inner, "ingress checks `expr._uuid not in table._cache.cols`", "expr._uuid not in table._cache.cols" in isrc,
            "the ingress tests visibility instead of scope (hidden columns would be rejected) or nothing at all")  # fmt: skip
@@ -257,18 +262,35 @@ def _provenance(arg, f, table, cname):
         assigns = [n for n in ast.walk(f) if isinstance(n, ast.Assign) and any(norm(t) == name for t in n.targets)]
         appends = [c for c in calls_in(f) if isinstance(c.func, ast.Attribute) and c.func.attr in ("append", "extend") and norm(c.func.value) == name]
         if cname == "Join":
-            # on: strings -> column equalities, every predicate through _preprocess_on, type-checked, then and-ed
-            src = norm(f)
-            ok = (
-                "pred.map_subtree(_preprocess_on) for pred in on" in src
-                and "pred.dtype()" in src
-                and "pred.ftype(agg_is_window=False)" in src
-                and all(
-                    isinstance(a.value, (ast.List, ast.ListComp, ast.Call)) and (name in {n.id for n in ast.walk(a.value) if isinstance(n, ast.Name)} or "LiteralCol(True)" in norm(a.value))
-                    for a in assigns
+            # dataflow over the assignments to the argument in statement order: it must pass through a comprehension that
+            # maps every predicate through the join ingress (`pred.map_subtree(_preprocess_on)`), every later value must be
+            # derived from it (or be a constant), and the predicates are type / function-type checked afterwards
+            processed = False
+            ingress_names = {n.name for n in ast.walk(f) if isinstance(n, ast.FunctionDef) and n is not f and "preprocess" in n.name}
+            for a in sorted(assigns, key=lambda n: n.lineno):
+                v = a.value
+                mentions = name in {n.id for n in ast.walk(v) if isinstance(n, ast.Name)}
+                through = any(
+                    isinstance(c, ast.Call) and isinstance(c.func, ast.Attribute) and c.func.attr in ("map_subtree", "map_col_roots")
+                    and c.args and isinstance(c.args[0], ast.Name) and c.args[0].id in ingress_names
+                    for c in ast.walk(v)
                 )
+                if through and mentions:
+                    processed = True
+                elif not mentions:
+                    # a value that is not derived from the argument: only constants are fine (`LiteralCol(True)` for no predicate)
+                    consts_only = all(isinstance(n, (ast.Constant, ast.Call, ast.Name, ast.Load, ast.List, ast.Tuple)) for n in ast.walk(v)) and not any(
+                        isinstance(n, ast.Name) and n.id not in ("LiteralCol", "True", "False") for n in ast.walk(v)
+                    )
+                    if not consts_only:
+                        processed = False
+            checked = any(
+                isinstance(lp, ast.For) and name in {n.id for n in ast.walk(lp.iter) if isinstance(n, ast.Name)}
+                and any(isinstance(c, ast.Call) and isinstance(c.func, ast.Attribute) and c.func.attr == "dtype" for c in ast.walk(lp))
+                and any(isinstance(c, ast.Call) and isinstance(c.func, ast.Attribute) and c.func.attr == "ftype" for c in ast.walk(lp))
+                for lp in ast.walk(f)
             )
-            return ok, "join condition pipeline"
+            return processed and checked, "join condition pipeline"
         inits = [a for a in assigns if isinstance(a.value, ast.List) and not a.value.elts]
         other = [a for a in assigns if a not in inits]
         if inits and not other and appends and all(c.args and is_pp(c.args[0]) for c in appends):
